@@ -1,0 +1,23 @@
+//go:build verif
+// +build verif
+
+package js_printer
+
+// Exports for the /verif correspondence harness (build tag "verif" only). Add-only.
+
+import "github.com/evanw/esbuild/internal/compat"
+
+// VerifPrintUnquotedUTF16 runs the real printUnquotedUTF16 on a printer whose current line already
+// holds currentLineLength bytes, and returns only the bytes it appended.
+func VerifPrintUnquotedUTF16(text []uint16, quote rune, asciiOnly bool, unsupported compat.JSFeature, lineLimit int, noWrap bool, currentLineLength int) []byte {
+	p := &printer{options: Options{ASCIIOnly: asciiOnly, UnsupportedFeatures: unsupported, LineLimit: lineLimit}}
+	for i := 0; i < currentLineLength; i++ {
+		p.js = append(p.js, 'x')
+	}
+	var flags printQuotedFlags
+	if noWrap {
+		flags = printQuotedNoWrap
+	}
+	p.printUnquotedUTF16(text, quote, flags)
+	return p.js[currentLineLength:]
+}
